@@ -18,7 +18,7 @@ TOL_ROUTES = 1e-9
 TOL_NUM = 1e-6
 
 
-def make_harness(spec_name, spec_fn, T):
+def make_harness(spec_name, spec_fn, T, third=False):
     def h(ch):
         k = ch.choose("point", list(range(T.points)))
         case = spec_fn(ch, T.at(k))
@@ -120,6 +120,28 @@ def make_harness(spec_name, spec_fn, T):
                     pass
                 except Exception as e:
                     res["gn_exc"] = "%s: %s" % (type(e).__name__, str(e)[:100])
+                # third order along one fixed direction u: psi(t) = phi(x + t u); the third derivative of psi at 0 by four nestings of
+                # the scalar operators, against the numerical derivative of autograd's own (second-order, judged above) psi-double-prime
+                if third and n:
+                    u = O.fill(x.shape, 11, 0.5, 1.5, T.seed)
+                    psi = lambda t: phi(x + t * u)
+                    g_, d_ = ag.grad, ag.deriv
+                    r3 = {}
+                    for name3, op3 in (("RRR", lambda: g_(g_(g_(psi)))), ("FFF", lambda: d_(d_(d_(psi)))), ("RFR", lambda: g_(d_(g_(psi)))),
+                                       ("FRF", lambda: d_(g_(d_(psi))))):
+                        try:
+                            r3[name3] = float(op3()(0.0))
+                        except Exception as e:
+                            res["third_exc_" + name3] = "%s: %s" % (type(e).__name__, str(e)[:100])
+                    res["third"] = r3
+                    try:
+                        sec = g_(g_(psi))
+                        T3, _ = O.numjac(lambda tt: onp.asarray(sec(float(onp.asarray(tt).reshape(-1)[0])), dtype=float), onp.array([0.0]))
+                        res["third_num"] = float(T3.reshape(-1)[0])
+                    except O.Untrusted:
+                        pass
+                    except Exception:
+                        pass
                 try:
                     Hn, _ = O.numjac(lambda xx: onp.asarray(gfun(xx), dtype=float), x)
                     res["num"] = Hn
@@ -170,6 +192,19 @@ def make_harness(spec_name, spec_fn, T):
             o["nontrivial"] = bool(onp.any(Hn != 0) and n > 1)
         else:
             counts["undecided-numerically"] += 1
+        if res.get("third"):
+            r3 = res["third"]
+            k3 = sorted(r3)
+            vals3 = [r3[k] for k in k3]
+            if all(onp.isfinite(vals3)):
+                if max(vals3) - min(vals3) > 1e-8 * (1 + max(abs(t_) for t_ in vals3)):
+                    V("+".join(k3), "third-order-routes-disagree", r3, None)
+                elif "third_num" in res and not abs(vals3[0] - res["third_num"]) <= 1e-5 * (1 + abs(res["third_num"])):
+                    V(k3[0], "third-order-wrong-value", r3, res["third_num"])
+                counts["third-order-checked" if "third_num" in res else "third-order-routes-only"] += 1
+            for k in res:
+                if k.startswith("third_exc_"):
+                    counts["third-raised-" + k[10:]] += 1
         if "gn_want" in res:
             for r in ("gn_RR", "gn_FR"):
                 if r in res and (res[r].shape != res["gn_want"].shape or not O.maxrel(res[r], res["gn_want"]) <= TOL_NUM):
@@ -205,8 +240,9 @@ def _table():
         if fam == "F":
             continue
 
-        def factory(quick, seed, name=name, fn=fn):
-            return make_harness(name, fn, Tier(quick, seed, reduced=quick) if quick else _thorough_tier(seed))
+        def factory(quick, seed, name=name, fn=fn, fam=fam):
+            # third order: the element-wise families in the quick tier, every family in the thorough tier
+            return make_harness(name, fn, Tier(quick, seed, reduced=quick) if quick else _thorough_tier(seed), third=(not quick or fam in ("U", "B")))
 
         table["cat:" + name] = factory
     return table
